@@ -24,7 +24,7 @@ fn script_body(chunks: &Value, trailers: Option<http::HeaderMap>) -> (ScriptBody
     for c in chunks.as_array().cloned().unwrap_or_default() { q.push_back(BItem::Data(json_bytes(&c))); }
     if let Some(t) = trailers { q.push_back(BItem::Trailers(t)); }
     let c = Arc::new(AtomicUsize::new(0));
-    (ScriptBody { items: q, polls_after_end: c.clone(), ended: false }, c)
+    (ScriptBody { items: q, polls_after_end: c.clone(), ended: false, fused: true }, c)
 }
 fn header_list(v: &Value) -> http::HeaderMap {
     let mut h = http::HeaderMap::new();
